@@ -797,3 +797,154 @@ theorem raw_block_roundtrip (c : Codec) (signals : Array SigEnc) (i : Nat) (s : 
   rw [this, replayFixed_abs]
 
 end Wellen.Store
+
+namespace Wellen.Store
+open Wellen.Bits
+
+/-! ### one-bit signals -/
+
+theorem encOneBit_length (cs : List (Nat × Nat)) : cs.length ≤ (encOneBit cs).length := by
+  induction cs with
+  | nil => simp [encOneBit]
+  | cons c cs ih =>
+    have h1 : 1 ≤ (lebWrite ((c.1 <<< 4) + c.2)).length := by
+      cases h : lebWrite ((c.1 <<< 4) + c.2) with
+      | nil => exact absurd h (lebWrite_ne_nil _)
+      | cons a r => simp
+    simp only [encOneBit, List.map_cons, List.flatten_cons, List.length_append, List.length_cons] at ih ⊢
+    omega
+
+theorem single_block_load_onebit (c : Codec) (signals : Array SigEnc) (i : Nat) (s : SigEnc) (tt : List Nat) (t0 : Nat)
+    (cs : List (Nat × Nat))
+    (hs : signals.toList[i]? = some s) (hdata : s.dataBytes = encOneBit cs) (hne : cs ≠ [])
+    (hcs : ∀ c ∈ cs, c.2 < 16 ∧ ((c.1 <<< 4) + c.2) < 2 ^ 32)
+    (hlen : divCeil (encOneBit cs).length 32 < 2 ^ 32) :
+    let r := finishSignals c signals
+    let b : Block := { startTime := t0, timeTable := tt, offsets := r.2.1, data := r.2.2 }
+    loadSignal { blocks := [b] } i (.bitvec 1) =
+      some { maxStates := s.maxStates,
+             times := (replayOneBit cs 0 {}).2.timesRev.reverse,
+             entries := (replayOneBit cs 0 {}).2.entriesRev.reverse } := by
+  have hne' : s.dataBytes ≠ [] := by
+    rw [hdata]
+    cases cs with
+    | nil => exact absurd rfl hne
+    | cons c0 r =>
+      have := encOneBit_length (c0 :: r)
+      intro h; rw [h] at this; simp at this
+  obtain ⟨comp, hpay, hcomp⟩ := finishSignal_payload c s hne'
+  have hd : (signals.toList.map fun s => (finishSignal c s).2)[i]? = some (some (lebWrite (metaEncode s.maxStates comp) ++ s.dataBytes)) := by
+    rw [List.getElem?_map, hs]; simp [hpay]
+  obtain ⟨off, len, ho, hsl⟩ := block_slice c signals i _ hd
+  simp only at ho hsl ⊢
+  have ho' : ({ startTime := t0, timeTable := tt, offsets := (finishSignals c signals).2.1, data := (finishSignals c signals).2.2 } : Block).offsetAndLength i = some (off, len) := ho
+  have hmeta : metaDecode (metaEncode s.maxStates comp) = some (s.maxStates, comp.map fun _ => divCeil s.dataBytes.length 32 * 32) := by
+    rcases hcomp with h | h
+    · rw [h]; simp [meta_roundtrip_plain]
+    · rw [h]; simp [(meta_roundtrip_compressed s.maxStates s.dataBytes.length (by rw [hdata]; exact hlen)).1]
+  have hfuel : cs.length < s.dataBytes.length + 1 := by rw [hdata]; have := encOneBit_length cs; omega
+  simp only [loadSignal, collectMeta, collectMeta.go, ho', hsl, lebRead_lebWrite, hmeta, List.reverse_cons, List.reverse_nil,
+    List.nil_append, List.map_cons, List.map_nil, List.foldl_cons, List.foldl_nil]
+  rcases hcomp with h | h
+  · subst h
+    simp only [Option.map_none]
+    rw [hdata, loadFixed_stream_onebit s.maxStates cs hcs _ 0 {} (by rw [← hdata]; exact hfuel)]
+  · subst h
+    have hge := (meta_roundtrip_compressed s.maxStates s.dataBytes.length (by rw [hdata]; exact hlen)).2
+    have hnot : ¬ (divCeil s.dataBytes.length 32 * 32 < s.dataBytes.length) := by omega
+    simp only [Option.map_some, hnot, ↓reduceIte]
+    rw [hdata, loadFixed_stream_onebit s.maxStates cs hcs _ 0 {} (by rw [← hdata]; exact hfuel)]
+
+end Wellen.Store
+
+namespace Wellen.Store
+open Wellen.Bits Wellen.Spec
+
+theorem addVcd_chunk_onebit (ti : Nat) (value : List Nat) (realLe : Option (List Nat)) (s s' : SigEnc)
+    (ht : s.tpe = .bitvec 1) (h : addVcd ti value realLe s = some s') :
+    ∃ bv, bv < 9 ∧ s'.chunks = lebWrite (((ti - s.prevTimeIdx) <<< 4) + bv) :: s.chunks ∧
+      s'.prevTimeIdx = ti ∧ s'.tpe = s.tpe ∧ s'.maxStates = States.join s.maxStates (States.fromValue bv) := by
+  unfold addVcd at h
+  cases value with
+  | nil => simp at h
+  | cons c0 rest =>
+    simp only [ht, ↓reduceIte] at h
+    generalize hvb : (if (if c0 = 98 ∨ c0 = 66 then rest else c0 :: rest).length ≤ 2 then (if c0 = 98 ∨ c0 = 66 then rest else c0 :: rest)
+        else if List.take 2 (if c0 = 98 ∨ c0 = 66 then rest else c0 :: rest) = [48, 98] then List.drop 2 (if c0 = 98 ∨ c0 = 66 then rest else c0 :: rest)
+        else (if c0 = 98 ∨ c0 = 66 then rest else c0 :: rest)) = vb at h
+    cases vb with
+    | nil => simp at h
+    | cons c r =>
+      simp only at h
+      cases hc : bitCharToNum c with
+      | none => simp [hc] at h
+      | some bv =>
+        simp only [hc] at h
+        cases h
+        have hlt : bv < 9 := by
+          have := charsToNums_lt [c] [bv] (by simp [charsToNums, hc]) bv (by simp)
+          exact this
+        exact ⟨bv, hlt, rfl, rfl, ht.symm, rfl⟩
+
+/-- **the VCD scalar path is transparent within a block**: a fresh one-bit signal that receives any number of VCD value tokens at
+non-decreasing time indices is loaded back as one compact entry per token at its time index (immediate repetitions dropped) -/
+theorem vcd_onebit_block_roundtrip (c : Codec) (signals : Array SigEnc) (i : Nat) (s : SigEnc) (tt : List Nat) (t0 : Nat)
+    (calls : List (Nat × List Nat)) (hne : calls ≠ [])
+    (hw : vcdWrites { tpe := .bitvec 1 } calls = some s) (hs : signals.toList[i]? = some s)
+    (hsorted : (calls.map (·.1)).Pairwise (· ≤ ·)) (hsmall : ∀ t ∈ calls.map (·.1), t < 2 ^ 27)
+    (hlen : divCeil s.dataBytes.length 32 < 2 ^ 32) :
+    ∃ cs : List (Nat × Nat),
+      cs.map (·.1) = deltasFrom 0 (calls.map (·.1)) ∧ (∀ x ∈ cs, x.2 < 9) ∧
+      (let r := finishSignals c signals
+       let b : Block := { startTime := t0, timeTable := tt, offsets := r.2.1, data := r.2.2 }
+       loadSignal { blocks := [b] } i (.bitvec 1) =
+         some { maxStates := s.maxStates,
+                times := (replayOneBit cs 0 {}).2.timesRev.reverse,
+                entries := (replayOneBit cs 0 {}).2.entriesRev.reverse }) := by
+  -- the accumulated data is a one-bit chunk stream
+  have hstream : ∀ (calls : List (Nat × List Nat)) (s0 s : SigEnc), s0.tpe = .bitvec 1 → vcdWrites s0 calls = some s →
+      ∃ cs : List (Nat × Nat), s.dataBytes = s0.dataBytes ++ encOneBit cs ∧
+        cs.map (·.1) = deltasFrom s0.prevTimeIdx (calls.map (·.1)) ∧ (∀ x ∈ cs, x.2 < 9) := by
+    intro calls
+    induction calls with
+    | nil =>
+      intro s0 s _ h
+      simp only [vcdWrites] at h; cases h
+      exact ⟨[], by simp [encOneBit], rfl, by simp⟩
+    | cons cl r ih =>
+      intro s0 s ht h
+      simp only [vcdWrites] at h
+      cases h1 : addVcd cl.1 cl.2 none s0 with
+      | none => simp [h1] at h
+      | some s1 =>
+        simp only [h1] at h
+        obtain ⟨bv, hlt, hch, hprev, htpe, _⟩ := addVcd_chunk_onebit cl.1 cl.2 none s0 s1 ht h1
+        obtain ⟨cs, hd, hdl, hv⟩ := ih s1 s (by rw [htpe]; exact ht) h
+        refine ⟨(cl.1 - s0.prevTimeIdx, bv) :: cs, ?_, ?_, ?_⟩
+        · rw [hd, dataBytes_cons s1 _ _ hch]
+          simp [SigEnc.dataBytes, encOneBit, List.append_assoc]
+        · simp [deltasFrom, hdl, hprev]
+        · intro x hx
+          rcases List.mem_cons.mp hx with rfl | hx
+          · exact hlt
+          · exact hv x hx
+  obtain ⟨cs, hd, hdl, hv⟩ := hstream calls { tpe := .bitvec 1 } s rfl hw
+  have hd' : s.dataBytes = encOneBit cs := by simpa [SigEnc.dataBytes] using hd
+  have hcsne : cs ≠ [] := by
+    intro he; subst he
+    cases calls with
+    | nil => exact hne rfl
+    | cons c0 r => simp [deltasFrom] at hdl
+  have hcs : ∀ x ∈ cs, x.2 < 16 ∧ ((x.1 <<< 4) + x.2) < 2 ^ 32 := by
+    intro x hx
+    have h9 := hv x hx
+    refine ⟨by omega, ?_⟩
+    have hxd : x.1 ∈ cs.map (·.1) := List.mem_map.mpr ⟨x, hx, rfl⟩
+    rw [hdl] at hxd
+    obtain ⟨t, ht, hle⟩ := deltasFrom_le _ 0 x.1 hxd
+    have := hsmall t ht
+    rw [Nat.shiftLeft_eq]; omega
+  refine ⟨cs, hdl, hv, ?_⟩
+  exact single_block_load_onebit c signals i s tt t0 cs hs hd' hcsne hcs (by rw [← hd']; exact hlen)
+
+end Wellen.Store
